@@ -82,20 +82,26 @@ func runC08(c *vc.Ctx) error {
 			return caseSpec{Name: fmt.Sprintf("exhaustive-%d", idx), Ops: exh.seq(idx), Store: st}
 		})
 	}
+	// protocol path: a fixed sample of sequences over TCP against real servers
+	nProto := c.Pick(300, 5000)
+	if err := runProtoSample(c, cp, nProto); err != nil {
+		return err
+	}
 	// directed size-boundary family (sizeb.go), model-compared
 	sb := sizebSpecs(true)
 	cp.run(len(sb), func(i int) caseSpec { return sb[i] })
 	cp.finish()
 	ev := c.Ev
 	ev.Set("size_boundary_cases_executed", len(sb))
-	ev.Rule = "cases: (a) random command sequences of length 20-200 over tiny adversarial pools (1-3 families, 1-2 of the tables t,t1,tt, 1-3 of 7 keys incl. ':' and binary bytes, 2-4 of 10 members incl. empty and binary, duplicate arguments inside one command with probability 1/3), sequence i drawn from PRNG(seed,i), store = (mem|pebble x wait_compact|local_deletion) by i mod 4; (b) sequences of length 1..3 over a per-type alphabet on 2 keys x 2 members (exhaustive in the thorough tier on every store, a seeded sample in the quick tier). Every write goes through the real state machine as its own raft entry, every reply and, after every command, the visible state of the keys it names are compared with the reference model; at the end every key ever named and every key found in the engine. distinct_nontrivial = number of distinct command lists (timestamps ignored) that reached a non-empty key/collection AND in which a removal or overwrite command (del, getset, set, append, hdel, hclear, lpop, ltrim, srem, spop, zrem, zremrange*, zadd on existing ...) succeeded afterwards."
+	ev.Set("protocol_path_sequences", nProto)
+	ev.Rule = "cases: (a) random command sequences of length 20-200 over tiny adversarial pools (1-3 families, 1-2 of the tables t,t1,tt, 1-3 of 7 keys incl. ':' and binary bytes, 2-4 of 10 members incl. empty and binary, duplicate arguments inside one command with probability 1/3), sequence i drawn from PRNG(seed,i), store = (mem|pebble x wait_compact|local_deletion) by i mod 4; (b) sequences of length 1..3 over a per-type alphabet on 2 keys x 2 members (exhaustive in the thorough tier on every store, a seeded sample in the quick tier). Every write goes through the real state machine as its own raft entry, every reply and, after every command, the visible state of the keys it names are compared with the reference model; at the end every key ever named and every key found in the engine; (c) a sample of generated sequences (one third of the commands drawn from the write commands with leader-side logic: SETNX, multi-key DEL/EXISTS, INCRBY, HDEL, LPOP/RPOP, LTRIM, SADD/SREM/SPOP, ZREM) over the redis protocol against real servers, compared with the same model; (d) a directed size-boundary family (collections of 4999/5000/5001 elements removed as a whole and re-created). distinct_nontrivial = number of distinct command lists (timestamps ignored) that reached a non-empty key/collection AND in which a removal or overwrite command (del, getset, set, append, hdel, hclear, lpop, ltrim, srem, spop, zrem, zremrange*, zadd on existing ...) succeeded afterwards."
 	ev.Set("exhaustive_short", c.Thorough())
 	ev.Set("exhaustive_space_size", total)
 	ev.Set("exhaustive_sequences_run", nExh*rounds)
 	ev.Set("random_sequences", nRandom)
 	ev.Set("coverage_gaps", coverageGaps())
 	ev.Assume("engines mem and pebble only (the RocksDB fork is not available: DESIGN.md section 4)")
-	ev.Assume("leader-side argument validation and node-local pre-checks (SETNX on existing key, LPOP on empty list, SADD of known members ...) are not executed: log entries are applied directly (smlab); the generator emits only commands that pass the leader's syntax checks (model.go D11). The protocol path over TCP belongs to another engine.")
+	ev.Assume("fast path: log entries are applied directly to the state machine (smlab), so leader-side argument validation and node-local pre-checks are not executed there; the generator emits only commands that pass the leader's syntax checks (model.go D11). Protocol path: a seed-determined sample of sequences (input classes with known deviations left out) runs over TCP against real single-replica servers (mem and pebble, local_deletion and wait_compact namespaces, one partition each); signatures proto/...")
 	ev.Assume("integer strings that Go's ParseInt accepts but Redis rejects ('+1', '01', '-0') are not in the value pools; collection keys with an empty key part are not generated (D10)")
 	return nil
 }
